@@ -6,7 +6,9 @@
 #include "sweep_all.hpp"
 #include "progs.hpp"
 #include "inspect.hpp"
+#include "successive.hpp"
 #include <sstream>
+#include <new>
 #include <memory>
 #include <fstream>
 #include <regex>
@@ -22,16 +24,28 @@ extern "C" int __lsan_do_recoverable_leak_check();
 using namespace vh;
 
 namespace {
-struct Tally { long long unit_names_read = 0, exact_fills = 0, threshold = 0, factory_calls = 0, strings = 0, string_bytes = 0, pools = 0, printed_bytes = 0, units = 0, regions = 0, steps = 0; };
+struct Tally { long long mirror_requests = 0, unit_names_read = 0, exact_fills = 0, threshold = 0, factory_calls = 0, strings = 0, string_bytes = 0, pools = 0, printed_bytes = 0, units = 0, regions = 0, steps = 0; };
 
 // the workload of one Lexicon life; everything it allocates dies with this scope
+// the Lexicon of every ordinary life is built in this one storage slot (the address a constructor may have remembered)
+alignas(impl::Lexicon) unsigned char lexicon_slot[sizeof(impl::Lexicon)];
+struct InSlot {                                  // destroyed after everything declared later in the life (units, sweep, modules)
+   impl::Lexicon* p;
+   InSlot() : p(new (lexicon_slot) impl::Lexicon) { }
+   ~InSlot() { p->~Lexicon(); }
+};
+
 void one_life(std::uint64_t seed, int flavour, Tally& T)
 {
    Rng rng(seed);
-   impl::Lexicon lex;
+   InSlot in_slot;
+   impl::Lexicon& lex = *in_slot.p;
    impl::Translation_unit unit { lex };
    const Lexicon& L = lex;
    std::ostringstream os;
+   // the same requests at the start and at the end of every life (this Lexicon occupies the storage of the previous one)
+   auto mirror = [&] { T.mirror_requests += mirror_requests(lex, [&](const std::string& k, const std::string& m) { ctx().viol(k, m + " (a Lexicon that occupies the storage of an earlier, destroyed one)"); }); };
+   mirror();
    if (flavour % 4 != 3) {
       // every factory once or twice, with shadows kept alive until the end of the life
       Sweep S(lex, unit, rng);
@@ -115,6 +129,7 @@ void one_life(std::uint64_t seed, int flavour, Tally& T)
       std::list<impl::Translation_unit> more;
       for (int u = 0; u < 5; ++u) { more.emplace_back(lex); more.back().global_scope()->make_typedecl(lex.get_identifier(u8"T"), L.class_type()); ++T.units; }
    }
+   mirror();
    // what every unit of this life is named by (nodes the unit itself fetched from the Lexicon when it was built)
    {
       auto touch_name = [&](const ipr::Translation_unit& u) { auto& n = u.global_namespace().name(); if (auto id = util::view<Identifier>(n)) { volatile std::size_t k = id->string().characters().size(); (void)k; } volatile auto c = u.global_namespace().type().category; (void)c; ++T.unit_names_read; };
@@ -240,9 +255,9 @@ static void body(Ctx& C)
       if (C.total_viols >= 12 && i >= 3) { C.count("stopped_early_after_repeated_violations"); break; }
    }
    C.count("factory_calls", T.factory_calls); C.count("strings_interned", T.strings); C.count("string_bytes", T.string_bytes); C.count("string_pools_at_destruction", T.pools);
-   C.count("printed_bytes", T.printed_bytes); C.count("extra_units_and_module_units", T.units); C.count("nested_regions", T.regions); C.count("program_steps", T.steps); C.count("strings_at_allocator_threshold_lengths", T.threshold); C.count("lives_filling_string_pools_exactly", T.exact_fills); C.count("unit_names_read", T.unit_names_read);
+   C.count("printed_bytes", T.printed_bytes); C.count("extra_units_and_module_units", T.units); C.count("nested_regions", T.regions); C.count("program_steps", T.steps); C.count("strings_at_allocator_threshold_lengths", T.threshold); C.count("lives_filling_string_pools_exactly", T.exact_fills); C.count("unit_names_read", T.unit_names_read); C.count("mirror_requests_at_both_ends_of_a_life", T.mirror_requests);
    for (auto k : { "lexicon_lives", "factory_calls", "strings_interned", "string_pools_at_destruction", "printed_bytes", "extra_units_and_module_units", "nested_regions", "program_steps" }) C.need(k);
-   C.need("overlapping_lexicon_pairs"); C.need("lives_filling_string_pools_exactly"); C.need("unit_names_read");
+   C.need("overlapping_lexicon_pairs"); C.need("lives_filling_string_pools_exactly"); C.need("unit_names_read"); C.need("mirror_requests_at_both_ends_of_a_life");
    if (!valgrind_mode) { C.need("byte_accounting_checks"); C.need("lsan_checks"); }
 }
 
